@@ -126,6 +126,10 @@ def real_objective(name, W, H, items, rows):
 
 
 def replay(w):
+    if w.get("kind") == "bounds":
+        r = real_bounds_only(w["objective"], w["W"], w["H"], [tuple(i) for i in w["items"]])
+        exp = py_bounds(w["objective"], w["W"], w["H"], [tuple(i) for i in w["items"]], r["lower_bound_bins"])
+        return (r["lower"], r["upper"]) != exp, dict(real=[r["lower"], r["upper"]], documented=list(exp))
     rows, items, W, H, name = w["rows"], [tuple(i) for i in w["items"]], w["W"], w["H"], w["objective"]
     k = max(r[1] for r in rows)
     ok, why = P.py_feasible(rows, items, W, H, k)
@@ -238,6 +242,94 @@ def job_objective(name, reps, dmax, timeout_s=900):
                 sample=dict(objective=name, reps=reps, clauses=["definition", "lower", "upper", "to_bin_count", "tie-breaker"]), **common)
 
 
+def py_bounds(name, W, H, items, lb):
+    n = sum(i[2] for i in items)
+    A = W * H
+    if name == "BinCount":
+        return lb, n
+    if name in ("BinCountAndLastEmpty", "BinCountAndEmpty"):
+        return max(n, (lb - 1) * n + 1), n * n
+    total = sum(w * h * m for (w, h, m) in items)
+    small = min(w * h for (w, h, m) in items)
+    return (total if lb == 1 else (lb - 1) * A + small), n * A
+
+
+def job_bounds(name, reps):
+    """lower_bound()/upper_bound() equal their documented closed forms for every instance (sizes to 10^12).  Reads from the
+    instance matrix in this plain-Python code are numpy scalars of the instance dtype: arithmetic on two of them must fit it."""
+    cls, M = load(name)
+    n = sum(reps)
+
+    def h(eng):
+        core.NUMPY_SCALARS = True
+        try:
+            inst = P.make_instance(eng, reps)
+            lb = fresh_int("lb")
+            eng.assume(z3.And(lb.e >= 1, lb.e <= n))
+            inst.lower_bound_bins = lb
+            obj = M["__init__"]._shell.__new__(M["__init__"]._shell) if hasattr(M["__init__"], "_shell") else cls.__new__(cls)
+            M["__init__"](obj, inst)
+            lo = M["lower_bound"](obj)
+            hi = M["upper_bound"](obj)
+        finally:
+            core.NUMPY_SCALARS = False
+        eng.flush()
+        W, H = inst.W.e, inst.H.e
+        A = W * H
+        if name == "BinCount":
+            elo, ehi = lb.e, z3.IntVal(n)
+        elif name in ("BinCountAndLastEmpty", "BinCountAndEmpty"):
+            elo, ehi = z3.If((lb.e - 1) * n + 1 > n, (lb.e - 1) * n + 1, z3.IntVal(n)), z3.IntVal(n * n)
+        else:
+            areas = [lift(w) * lift(hh) for (w, hh, r) in inst.items]
+            small = areas[0]
+            for a in areas[1:]:
+                small = z3.If(a < small, a, small)
+            total = z3.Sum([a * r for a, (w, hh, r) in zip(areas, inst.items)])
+            elo, ehi = z3.If(lb.e == 1, total, (lb.e - 1) * A + small), n * A
+        for lab, c in (("lower_bound() equals its documented formula", lift(lo) == elo), ("upper_bound() equals its documented formula", lift(hi) == ehi)):
+            if not z3.is_true(z3.simplify(c, som=True)):
+                eng.oblige(c, lab, now=True)
+        return "bounds"
+    eng = Engine(timeout_ms=120000)
+    eng.prefer = P.small_witness_prefs(len(reps))
+    ok = eng.explore(h)
+    common = dict(paths=eng.paths, queries=dict(sat=eng.n_sat, unsat=eng.n_unsat, unknown=eng.unknown), solver_s=round(eng.t_solver, 2), vacuity=dict(outcomes=eng.outcomes))
+    if eng.violations:
+        v = eng.violations[0]
+        md = {d.name(): v.model[d].as_long() for d in v.model.decls() if z3.is_int_value(v.model[d])}
+        W, H, items = P.model_instance(md, reps)
+        cands = [(W, H, items)]
+        import itertools
+        for perm in itertools.permutations(items):
+            cands.append((W, H, list(perm)))
+        for (Wc, Hc, it) in cands:
+            try:
+                r = real_bounds_only(name, Wc, Hc, it)
+            except Exception as ex:
+                continue
+            exp = py_bounds(name, Wc, Hc, it, r["lower_bound_bins"])
+            if (r["lower"], r["upper"]) != exp:
+                w = dict(objective=name, W=Wc, H=Hc, items=[list(i) for i in it], label=v.label, kind="bounds", observed=dict(real=[r["lower"], r["upper"]], documented=list(exp), dtype=r["dtype"]))
+                return violated("objective_" + name, f"binpacking2d/objectives ({name}) bounds", f"{name}: bin {Wc}x{Hc} items {it}: bounds {r['lower']}, {r['upper']} but the documented formulas give {exp} (dtype {r['dtype']})",
+                                w, validated=1, **common)
+        return inconclusive(f"{name}: '{v.label}' fails symbolically for bin {W}x{H} items {items} but the real bounds equal the formulas", **common)
+    if not ok or not eng.outcomes.get("bounds"):
+        return inconclusive(f"not conclusive {eng.stats()}", **common)
+    return held(summary=f"{name} reps={reps}: lower/upper bound equal their documented formulas for all sizes ({eng.paths} paths)", sample=dict(objective=name, reps=reps, clause="bounds formulas"), **common)
+
+
+def real_bounds_only(name, W, H, items):
+    from moptipyapps.binpacking2d.instance import Instance
+    cls, _ = load(name)
+    inst = Instance("i", W, H, [list(i) for i in items])
+    o = cls(inst)
+    import warnings
+    with warnings.catch_warnings():
+        warnings.simplefilter("ignore")
+        return dict(lower=int(o.lower_bound()), upper=int(o.upper_bound()), lower_bound_bins=int(inst.lower_bound_bins), dtype=str(inst.dtype))
+
+
 def job_selftest(seed):
     """concrete cross-check: real objectives on random feasible packings vs python definitions"""
     rnd = random.Random(seed)
@@ -264,6 +356,9 @@ def jobs(tier):
     import os
     seed = int(os.environ.get("VERIF_SEED", "0") or 0)
     js = [Job("selftest", job_selftest, dict(seed=seed), "selftest", 600)]
+    for name in OBJECTIVES:
+        for reps in ([1], [1, 1], [2, 1], [1, 1, 1]) + (([1, 2, 1], [1, 1, 1, 1]) if tier == "thorough" else ()):
+            js.append(Job(f"bounds/{name}/reps{'-'.join(map(str, reps))}", job_bounds, dict(name=name, reps=list(reps)), "objective_" + name, 600))
     nmax = 3 if tier == "quick" else 4
     dmax = 6 if tier == "quick" else 8
     for name in OBJECTIVES:
@@ -284,7 +379,9 @@ def meta(tier):
     return dict(
         bounds=dict(rows="<= 3 rows (thorough 4; skyline objectives 3)", packings="every feasible packing (declarative oracle): unsorted rows, any bin numbering 1..k",
                     sizes="counting objectives: sizes up to 10^12; area objectives: bin dims <= 6 (thorough 8); skyline objectives with 3 rows: dims <= 4 (thorough 5) (nonlinear, bit-vector back-end)",
-                    lower_bound_bins="symbolic with 1 <= lb <= k (what C03 establishes)"),
+                    lower_bound_bins="symbolic with 1 <= lb <= k (what C03 establishes)",
+                    bounds_formulas="lower_bound()/upper_bound() of all seven objectives equal their documented closed forms for every instance with <= 3 item types (thorough 4), sizes to 10^12; "
+                                    "values read from the instance matrix in this plain-Python code are numpy scalars of the instance dtype (arithmetic on two of them must fit it)"),
         outside=["more rows / larger dims for the area objectives", "cross-objective agreement inside packing_result.from_packing_and_end_result"],
         assumptions=["packings are feasible by the C01 oracle", "lower_bound_bins is any value in 1..k", "quick tier: one item type per row (reps all 1)",
                      "dominance (fewer bins => strictly smaller value) is shown through the tie-breaker range 1..scale"],
